@@ -16,7 +16,7 @@ import random
 
 import numpy as np
 
-from harness import alpha, core, gamma, lattice, shims, tlc, util
+from harness import alpha, compare, core, gamma, lattice, shims, tlc, util
 
 INV = ["SpecNonEmpty", "SliceRefines", "NoUninit", "GridLevelOK", "Emit"]
 SENTINELS = [4.4e299, -4.4e299, float("nan")]
@@ -64,11 +64,39 @@ def build(chk, sc, cfgseed, axes, ext0=None, scale=None):
         sl[cn] = slice(0, 1)
         return np.broadcast_to(base[tuple(sl)], shape).copy()
     flds = lattice.Fields(lat, cfgseed, payload="tame", special={2: affine, 3: const})
+    if cfgseed % 4 == 1:
+        # SPECIAL SAMPLES in the last field: a few cells hold +inf or a value near the largest double.  A convex combination
+        # of +inf and a finite sample is +inf, of two huge samples of opposite sign is finite (a difference of samples is not)
+        for lv in range(len(sc["mesh"])):
+            a = flds.level(lv, 4)
+            r = np.random.default_rng(cfgseed + lv)
+            pick = r.random(a.shape)
+            a[pick < 0.06] = np.inf
+            a[(pick >= 0.06) & (pick < 0.10)] = 1.5e308
+            a[(pick >= 0.10) & (pick < 0.14)] = -1.5e308
     ap = lat.ap("A", FIELDS, files_of=lambda lv, b: rng.randint(1, 2), shuffle=lambda lv, f, v: rng.sample(v, len(v)))
     d = os.path.join(chk.tmp_reuse(), "plt00300")
     os.makedirs(os.path.dirname(d))
     gamma.write_plotfile(d, ap, cfg_, values=flds.values)
     return d, cfg_, lat, flds
+
+
+def special_near(flds, cfg_, lim, fi, axes, pA, pB, lpix, pos):
+    """Is a sample of ANY level <= lim within two cells of the plane, in the column through in-plane cell (pA, pB) of level
+    lpix, infinite or huge?  (A box edge takes its outer neighbour from the coarser level.)"""
+    cn, aA, aB = axes
+    for l in range(lim + 1):
+        col = flds.level(l, fi)
+        dx = gamma.level_dx(cfg_, 3, l)[cn]
+        c = int(np.floor((pos - cfg_.origin[cn]) / dx - 0.5))
+        q = [0, 0, 0]
+        q[aA], q[aB] = (pA * 2 ** l) // 2 ** lpix, (pB * 2 ** l) // 2 ** lpix
+        for i in range(c - 1, c + 3):
+            if 0 <= i < col.shape[cn]:
+                q[cn] = i
+                if not abs(float(col[tuple(q)])) < 1e300:
+                    return True
+    return False
 
 
 def phys_pos(cfg_, lat, sc, cn):
@@ -144,11 +172,15 @@ def run_scenario(chk, sc, cfgseed, axes, serial, fields, default_pos=False):
                         vals.append(float(flds.level(l, fi)[tuple(idx)]))
                     if a == b:
                         want = vals[0]
+                        # a plane within rounding of the cell centres: the neighbouring sample enters with a weight of rounding
+                        # size, which an infinite or huge neighbour turns into anything -- not judged
+                        if special_near(flds, cfg_, lim, fi, axes, tp, k, lim, pos):
+                            want = float("nan")
                     else:
                         na, nb = centre(*a), centre(*b)
                         want = (vals[0] * (nb - pos) + vals[1] * (pos - na)) / (nb - na)
                     cands.append(want)
-                    if abs(got - want) <= 1e-9 * max(1.0, abs(vals[0]), abs(vals[1])):
+                    if compare.close_ext(got, want, 1e-9 * max(1.0, abs(vals[0]), abs(vals[1]))):
                         ok = True
                         break
                 if not ok:
